@@ -11,7 +11,7 @@ CONSTANTS
   Specials = {"const"}
   Classes <- None
   Methods = {"overlap", "distance"}
-  FrameKinds = {"empty", "one", "two", "moved"}
+  FrameKinds = {"empty", "one", "two", "shifted", "moved"}
   MaxFrames = 4
 INVARIANT NoUndocumentedRaise
 INVARIANT FiniteResult
